@@ -1,3 +1,7 @@
+import os
+from concurrent.futures import ThreadPoolExecutor
+
+import vlib
 from check import Prop
 
 
@@ -5,32 +9,100 @@ class C42(Prop):
     pid = "C42"
     check_mod = "C42"
     drivers = [dict(pkg="internal/staticsources", test="TestVerifC42Src", timeout=600),
-               dict(pkg="internal/forward", test="TestVerifC42Dst", timeout=600)]
-    n_quick = 600           # per driver
+               dict(pkg="internal/forward", test="TestVerifC42Dst", timeout=600),
+               dict(pkg="internal/core", test="TestVerifC42Core", timeout=900)]
+    n_quick = 600           # per template driver; + n/6 life-cycle histories on a real forward.Manager,
+                            # + (6 + n/100) publisher and (4 + n/150) on-demand source histories on a real path
     n_thorough = 60000
     shard = 300
     ready = True
     manifest = dict(
-        text="Coq theorems over a Gallina transliteration of resolveSource/resolveDest (descending-index chains of "
+        text="(1) templates: Coq theorems over a Gallina transliteration of resolveSource/resolveDest (descending-index chains of "
              "strings.ReplaceAll): on every template inside an explicit boolean guard, for every group count and all "
              "dollar-free group values / path names (path names are validated, so always), the chain equals one "
              "left-to-right pass that replaces the longest placeholder at each position; nothing inside the client's query "
              "is ever replaced (no precondition on the query); $G<k> with a multi-digit k is group k. Outside the guard the "
              "full statement is refuted with concrete witnesses (listed as known findings). Tied to the code by running the "
-             "real functions on generated templates, groups, queries and comparing inside Coq.",
+             "real functions on generated templates, groups, queries and comparing inside Coq. "
+             "(2) life cycle: a Gallina model of the consumers of substituted strings of one live path - forward.Manager "
+             "(Initialize / ReloadConf / createDestHandler, each handler resolving with the groups it was created with), "
+             "staticsources.Handler (Start / ReloadMatches / Stop / retry, resolveSource at every instance creation), "
+             "path.ExternalCmdEnv, wired as in path.doReloadConf - with theorems for EVERY history of hot reloads (each may "
+             "replace the forward list and hand in more / fewer / other capture groups or none), stream coming and going, "
+             "source started with a query / stopped / failing / retried: every destination handler has the configuration "
+             "at its position and connects to the substitution of that template with the CURRENT groups (inside the guard: "
+             "the single pass), a running source instance was given the substitution with the current groups, every later "
+             "start resolves with them, the hook environment is exactly G1..Gn of the current groups; an unchanged "
+             "destination under unchanged groups keeps its handler. The forward theorem is proved for any test ReloadConf "
+             "might use to keep a handler provided the test is sound (kept => same configuration and same resolved value); "
+             "the code's test is sound, a test over the indices of the old groups only is refuted. Tied to the code by "
+             "histories on a real forward.Manager (resolved value from the handler's fields or from the running "
+             "forwarder's own log line, next to a fresh resolveDest oracle) and on a real pathManager + path with real "
+             "conf.Load / FindPathConf (what forwarders and source instances send to a TCP listener, the real "
+             "ExternalCmdEnv()).",
         note="Trusted: Coq kernel+VM, the in-package drivers. strings.ReplaceAll is modelled (leftmost, non-overlapping) "
-             "and tied by the correspondence run. Out-of-range indices ($G12 with 3 groups) are outside the guard.",
+             "and tied by the correspondence run. Out-of-range indices ($G12 with 3 groups) are outside the guard. "
+             "Life cycle: the property side reads the current groups / forward list off the history itself; the groups "
+             "handed in by a reload are those of the real FindPathConf (that pathManager delivers them is C15's subject and "
+             "is exercised here end to end); hook commands that are already running keep the environment of their launch "
+             "(not covered); the retry of a failed source after retryPause (5 s) is modelled but not driven in the quick tier.",
         technique="Coq proof (templates as item lists; each ReplaceAll step shown to act on whole placeholders by induction; "
-                  "decimal-prefix lemma for the descending order) + correspondence by vm_compute")
+                  "decimal-prefix lemma for the descending order; life cycle: invariant by induction over histories, "
+                  "parametrised by the keep test) + correspondence by vm_compute")
     rule = ("templates from families plain / adjacent placeholders / stray dollars / digits after a placeholder / random "
             "fragments, group counts 0..130 (multi-digit indices), values from the path-name alphabet incl. G1, MTX_QUERY, "
             "digits; queries containing $G1, $MTX_PATH, $$; 10% cases with dollars inside values (model tie only); directed "
-            "witnesses first. Non-trivial = template with at least one placeholder; distinct = distinct (input, output)")
+            "witnesses first. Non-trivial = template with at least one placeholder; distinct = distinct (input, output). "
+            "Life cycle (classes life:*): directed corpus first (a group that only the new / only the old configuration has, "
+            "same count other values, non-regexp <-> regexp, 9 -> 10 groups with $G10, groups and list changing together, "
+            "running forwarders) then seeded random histories of 1-5 steps: groups grow / shrink / change / swap / vanish / "
+            "stay equal under a new configuration name, destinations changed / removed / inserted / appended / swapped / "
+            "other field changed, Start / Stop; templates mostly inside the guard with indices up to two beyond the group "
+            "count. On the real path: regexp keys built from the name (every subset of segments captured, greedy / lazy / "
+            "optional / nested groups, the static key), publisher paths with 1-3 RTSP destinations, on-demand source paths "
+            "with the source stopped or running at the reload. Non-trivial = a reload that changes the groups while a "
+            "destination / the source template stays")
     trusted_base = ["Coq 8.16.1 kernel + VM (vm_compute for cases)", "in-package Go drivers zz_verif_c42_test.go "
-                    "(internal/staticsources, internal/forward)",
+                    "(internal/staticsources, internal/forward, internal/core) and zz_verif_c42life_test.go (internal/forward)",
+                    "oracle: real resolveDest on the current template and groups (fresh value next to each held value)",
+                    "oracle: conf.FindPathConf / regexp engine for the groups of a name under a configuration key",
+                    "model Model/C42_Life.v hand-written (forward.Manager, staticsources.Handler, ExternalCmdEnv, "
+                    "path.doReloadConf), tied by correspondence",
                     "model Model/C42_Template.v hand-written (strings.ReplaceAll, strconv.FormatInt modelled), tied by correspondence"]
     assumptions = ["path names and capture groups hold no '$' (conf.IsValidPathName: [0-9a-zA-Z_-/.])",
-                   "sources know $G<n> and $MTX_QUERY, destinations $G<n> and $MTX_PATH (as documented in mediamtx.yml)"]
+                   "sources know $G<n> and $MTX_QUERY, destinations $G<n> and $MTX_PATH (as documented in mediamtx.yml)",
+                   "a hot reload cannot change the source template (pathConfCanBeUpdated compares Source); the path name "
+                   "of a live path never changes"]
+
+    def run_drivers(self, ctx, n, seed, replay=None):
+        # the three packages are driven at the same time (each `go test` costs 15-40 s of toolchain work)
+        def one(kd):
+            k, d = kd
+            wd = os.path.join(ctx.workdir, "drv%d" % k)
+            vlib.ensure_dir(wd)
+            outp = os.path.join(ctx.workdir, "driver_%d_%d.jsonl" % (k, n))
+            if os.path.exists(outp):
+                os.remove(outp)
+            env = {"VERIF_SEED": seed, "VERIF_N": n, "VERIF_OUT": outp, "VERIF_TIER": ctx.tier, "VERIF_WORK": wd}
+            env.update(d.get("env", {}))
+            if replay:
+                env["VERIF_REPLAY"] = replay
+            rc, out = vlib.run_driver(wd, d["pkg"], d["test"], env, timeout=d.get("timeout", 900))
+            return d, rc, out, vlib.read_jsonl(outp)
+
+        cases, summaries, errors = [], [], []
+        with ThreadPoolExecutor(max_workers=len(self.drivers)) as ex:
+            for d, rc, out, rows in ex.map(one, list(enumerate(self.drivers))):
+                for r in rows:
+                    if "summary" in r:
+                        summaries.append(r["summary"])
+                    else:
+                        r["driver"] = d["test"]
+                        r["id"] = len(cases)
+                        cases.append(r)
+                if rc != 0:
+                    errors.append("driver %s failed (rc=%d):\n%s" % (d["test"], rc, out[-6000:]))
+        return cases, summaries, errors
 
     def evaluate(self, ctx, cases):
         res = super().evaluate(ctx, cases)
